@@ -220,7 +220,7 @@ def showExec (e : ExecEv) : String :=
 def showOutcome (rep : Bool) (o : Outcome) : String :=
   match o with
   | .ok r => s!"ok {",".intercalate (r.outs.map toString)}"
-  | .unsat a g => s!"unsat {",".intercalate (((a.map showLabel).mergeSort (· ≤ ·)).eraseDups)} graph={g && rep}"
+  | .unsat a g => s!"unsat {",".intercalate ((a.map showLabel).mergeSort (· ≤ ·))} graph={g && rep}"
   | .convErr e => if e = 1 then "e0 typednil" else s!"e0 {e}"
   | .targetErr e _ => if e = 1 then "e0 typednil" else s!"e0 {e}"
   | .missingArg => "missingarg"
@@ -234,8 +234,8 @@ def showImplRes (ts : List String) : String :=
   | "ok" :: rest => s!"ok {rest.headD ""}"
   | "err" :: "unsat" :: rest =>
     -- the resolver-level error lists a requirement once per in-progress function its path runs through;
-    -- the model lists it once: compare as sets
-    let args := (((kv rest "args").getD "").splitOn ",").eraseDups
+    -- `planOne` models exactly that, so the (sorted) lists are compared as multisets
+    let args := (((kv rest "args").getD "").splitOn ",").mergeSort (· ≤ ·)
     s!"unsat {",".intercalate args} graph={(kv rest "inputs").getD "" != "" || (kv rest "convs").getD "" != ""}"
   | "err" :: "e0" :: [x] => s!"e0 {x}"
   | "err" :: [x] => x
